@@ -398,6 +398,9 @@ findTypeLoop:
 			lookupType := li.Meta.LookupType
 			if _, replaced := chunkPos[chunkExtReplace|tCode]; replaced {
 				// fix the lookup type in case of replaced subtables
+				if extLookupType == 0 {
+					panic("cannot determine the extension lookup type")
+				}
 				lookupType = extLookupType
 			}
 			buf = append(buf,
